@@ -19,7 +19,7 @@ from ..astutil import (
     src,
     walk_local,
 )
-from ..cfg import cfg_of
+from ..cfg import cfg_of, deref_at
 from ..loader import AnalysisError, FuncInfo
 from .common import MAINT, TRANSFER, backend_refs, func_label, loc, nested_by_role, repo_cls, self_calls
 
@@ -441,12 +441,56 @@ def r5_abort(ctx):
                             f'`{nm}.done()` polled by the worker loop belongs to a thread-side future (not loop.run_in_executor): it can flip between the `empty()` and `done()` checks and a worker exits with the last chunk still queued',
                         )
     r5b_completion_flag(ctx, 'C09.R5')
+    # the polling loop of a worker ends when the producer is through, however the producer ended: its exit decision reads
+    # the producer's completion (the future / an Event set in a `finally`), not only what the producer managed to queue
+    n_poll = 0
+    for w in snap.nested.values():
+        if not w.is_async:
+            continue
+        for lp in [l for l in walk_local(w.node) if isinstance(l, ast.While)]:
+            polls = [c for c in calls_in(lp) if isinstance(c.func, ast.Attribute) and c.func.attr in ('get_nowait', 'get') and isinstance(c.func.value, ast.Name) and 'queue' in c.func.value.id.lower()]
+            if not polls:
+                continue
+            n_poll += 1
+            tests = [lp.test] + [i.test for i in walk_local(lp) if isinstance(i, ast.If) and any(isinstance(x, (ast.Break, ast.Return)) for b in (i.body, i.orelse) for st in b for x in ast.walk(st))]
+            reads_completion = False
+            for t in tests:
+                for c in ast.walk(t):
+                    if isinstance(c, ast.Call) and isinstance(c.func, ast.Attribute) and isinstance(c.func.value, ast.Name):
+                        if c.func.attr == 'done' and c.func.value.id in fut:
+                            reads_completion = True
+                        if c.func.attr == 'is_set' and c.func.value.id in events and c.func.value.id not in polled:
+                            # an Event counts when some `finally` sets it
+                            for tr in [x for f_ in [snap] + list(snap.all_nested()) for x in walk_local(f_.node) if isinstance(x, ast.Try)]:
+                                if any(isinstance(y, ast.Call) and isinstance(y.func, ast.Attribute) and y.func.attr == 'set' and isinstance(y.func.value, ast.Name) and y.func.value.id == c.func.value.id for st in tr.finalbody for y in ast.walk(st)):
+                                    reads_completion = True
+            ctx.check(
+                reads_completion,
+                'C09.R5',
+                f'{func_label(w)}|worker-exit-reads-producer-completion',
+                loc(w, lp),
+                f'{w.name}: the polling loop decides to stop on the completion of the producer (future / Event set in a finally)',
+                f'{w.name}: the polling loop stops only on what it finds in the queue (e.g. an end marker): when the producer thread ends without queueing it (an error while reading a file, an abort) '
+                'the workers poll forever, the error is never reported and the snapshot hangs',
+            )
+    ctx.floor('C09.R5', 'worker polling loops', n_poll)
     ctx.floor('C09.R5', 'await of the producer future', len(p_stmts))
     # worker join: awaited statement that applies a nested function referencing upload_stream
     workers = {f.name for f in snap.nested.values() if any(isinstance(n, ast.Attribute) and n.attr == 'upload_stream' for n in walk_local(f.node))}
     w_stmts = []
+    def _mentions_worker(e, depth=0):
+        for x in ast.walk(e):
+            if isinstance(x, ast.Name):
+                if x.id in workers:
+                    return True
+                if depth < 3 and isinstance(x.ctx, ast.Load):
+                    d = deref_at(snap.node, x)
+                    if d is not x and _mentions_worker(d, depth + 1):
+                        return True
+        return False
+
     for n in walk_local(snap.node):
-        if isinstance(n, ast.Await) and any(isinstance(x, ast.Name) and x.id in workers for x in ast.walk(n.value)):
+        if isinstance(n, ast.Await) and _mentions_worker(n.value):
             w_stmts.append(enclosing_stmt(n))
     ctx.floor('C09.R5', 'awaited worker join', len(w_stmts))
     set_nodes = []
@@ -719,3 +763,7 @@ def run(ctx):
     from .c01 import digest_cleared_after_writes
 
     digest_cleared_after_writes(ctx, 'C09.R7')
+    # the outcome does not depend on completion order: a failure of any worker / loader job is retrieved, whichever finishes first
+    from .shared import gathers_propagate
+
+    gathers_propagate(ctx, 'C09.R5')
